@@ -432,8 +432,11 @@ class C07(Base):
             if rng.random() < 0.1:
                 cfg["p"]["call"] = rng.choice(("pos", "pos", "kw", "np",
                                                "nppos"))
-            if rng.random() < 0.3:
+            u = rng.random()
+            if u < 0.25:
                 cfg["p"]["costs_int"] = True
+            elif u < 0.37:
+                cfg["p"]["costs_form"] = "np" if u < 0.33 else "frac"
         return Plan(slots)
 
     def check(self, w):
